@@ -53,6 +53,16 @@ func genC12(r *h.Rng, tier string, idx int) *h.Plan {
 			rids = []string{"q1"}
 		}
 		p.Cfg["mode"] = "rulechurn"
+	} else if r.P(1, 4) {
+		// fact churn: every client rewrites the same one or two facts with tags
+		// from the small domain and searches by tag, where an overwrite's index
+		// update meets another overwrite of the same id
+		weights = []int{7, 1, 1, 4, 0, 0, 0, 0}
+		ids = []string{"s1"}
+		if r.Bool() {
+			ids = []string{"s1", "s2"}
+		}
+		p.Cfg["mode"] = "factchurn"
 	}
 	uniq := 0
 	total := 0
@@ -624,6 +634,12 @@ func execC12(t *testing.T, plan *h.Plan, trace bool) *h.Result {
 	for _, tag := range []string{"a", "b"} {
 		maxSeq += 2
 		op := h.Op{K: "search", Loc: "L", J: map[string]interface{}{"tag": tag}}
+		ops = append(ops, porcupine.Operation{ClientId: fin, Input: op, Call: maxSeq, Output: c12Do(loc, eng.Store, op), Return: maxSeq + 1})
+	}
+	// ... and by a final event: what fires (the rule cache) must agree with the rules
+	{
+		maxSeq += 2
+		op := h.Op{K: "event", Loc: "L", J: map[string]interface{}{"ev": "e"}}
 		ops = append(ops, porcupine.Operation{ClientId: fin, Input: op, Call: maxSeq, Output: c12Do(loc, eng.Store, op), Return: maxSeq + 1})
 	}
 	r := porcupine.CheckOperationsTimeout(c12Model, ops, 20*time.Second)
